@@ -167,7 +167,8 @@ class NatGen(libgen.Gen):
         if k == "int":
             return "i"
         if k == "enum":
-            return "e:" + t["name"]
+            # Python has only int for an unscoped enum value: never let it compete with an integer parameter
+            return "e:" + t["name"] if t.get("scoped") else "i"
         if k == "float":
             return "f"
         if k in ("string", "cstr"):
